@@ -6,6 +6,9 @@
 #include "vh.hpp"
 #include "randomx.h"
 #include "dataset.hpp"
+#include "superscalar.hpp"
+#include "jit_compiler.hpp"
+#include "reciprocal.h"
 #include <thread>
 #include <vector>
 #include <string>
@@ -31,7 +34,7 @@ static void tramp(randomx_cache* c, uint8_t* dst, uint32_t s, uint32_t e) {
 static const uint8_t PAT = 0xA7;
 static bool is_pat(const uint8_t* p) { for (int k = 0; k < 64; ++k) if (p[k] != PAT) return false; return true; }
 
-static void one(randomx_cache* cache, randomx_dataset* ds, bool jit, unsigned long start, unsigned long count) {
+static void one(randomx_cache* cache, randomx_dataset* ds, bool jit, unsigned long start, unsigned long count, bool sparse = false) {
 	unsigned long total = randomx_dataset_item_count();
 	const unsigned long G = 16;
 	unsigned long lo = start >= G ? start - G : 0, hi = std::min(total, start + count + G);
@@ -45,6 +48,9 @@ static void one(randomx_cache* cache, randomx_dataset* ds, bool jit, unsigned lo
 		bool changed = !is_pat(g_dsmem + (size_t)i * 64);
 		if (changed) { if (clo < 0) clo = (long long)i; chi = (long long)i; ++n; }
 		if (i >= start && i < start + count) {
+			// (sparse: the values of a very long range are recomputed near its ends and around the 2^25-item boundary only)
+			if (sparse && !changed) { ++missing; continue; }
+			if (sparse && !(i - start < 64 || start + count - i <= 64 || (i - start >= (1ul << 25) - 64 && i - start < (1ul << 25) + 64) || (i % 65537) == 0)) continue;
 			uint8_t item[64]; randomx::initDatasetItem(cache, item, i);
 			if (!changed) ++missing; else if (memcmp(item, g_dsmem + (size_t)i * 64, 64)) ++bad;
 		}
@@ -142,6 +148,22 @@ int main(int argc, char** argv) {
 	multi(rng, cache, ds, jit, 7, 0, 20011);
 	if (thorough) { for (int i = 0; i < 6; ++i) multi(rng, cache, ds, jit, 2 + rng.below(15), rng.below((uint32_t)(total - 300000)), 100000 + rng.below(200000)); }
 	if (thorough && atoi(arg(argc, argv, "--full", "0"))) multi(rng, cache, ds, jit, 16, 0, total);
+	// one call spanning more than 2^25 items (more than 2 GiB of dataset): byte offsets inside the initialiser exceed 31 bits.  To keep it
+	// cheap the cache object used here has eight one-instruction programs (made by the harness; the item function is the library's).
+	if (atoi(arg(argc, argv, "--long", (thorough || !flavour) ? "1" : "0")) && !endOnly) {       // quick tier: interpreted initialiser only
+		randomx_cache* tiny = randomx_alloc_cache((randomx_flags)(argonf | (flavour ? RANDOMX_FLAG_JIT : 0)));
+		uint8_t k1[1] = { 7 }; randomx_init_cache(tiny, k1, 1);                       // real memory, real function pointers
+		for (int i = 0; i < RANDOMX_CACHE_ACCESSES; ++i) {
+			randomx::SuperscalarProgram& p = tiny->programs[i];
+			randomx::Instruction& in = p(0); in.opcode = (uint8_t)randomx::SuperscalarInstructionType::IXOR_R; in.dst = (uint8_t)(i % 8); in.src = (uint8_t)((i + 3) % 8); in.mod = 0; in.setImm32(0);
+			p.setSize(1); p.setAddressRegister((i * 5 + 1) % 8);
+		}
+		tiny->reciprocalCache.clear();
+		if (flavour) { tiny->jit->enableWriting(); tiny->jit->generateSuperscalarHash(tiny->programs, tiny->reciprocalCache); tiny->jit->generateDatasetInitCode(); tiny->jit->enableExecution(); }
+		unsigned long cnt = (1ul << 25) + 4 * (unsigned long)(1 + rng.below(6));
+		one(tiny, ds, jit, 4 * (unsigned long)rng.below(1000), cnt, true);
+		randomx_release_cache(tiny);
+	}
 	// the SAME cache object re-keyed: what the initialiser produces must follow the current key, whatever the object held before
 	// (keys related to the previous one: proper prefix, extension, same first 60 bytes = same SuperscalarHash seed, embedded NUL, empty)
 	{
